@@ -213,32 +213,91 @@ fn oracle(toks: &[&str]) -> String {
             }
         },
         "rec" => {
-            let rl = [16usize,64,127,128,200,255,256,512][rng.below(8)];
+            let rl = [16usize,64,127,128,200,255,256,512,2,10,30,32767,32768,65535][rng.below(14)];
             let mut recs = Records::new(rl);
             let n = 1 + rng.below(12);
             let mut want: Vec<(usize,String)> = Vec::new();
             let mut used = std::collections::HashSet::new();
+            let mut too_long = false;
             for _ in 0..n {
-                let idx = [0usize,1,2,3,7,rng.below(40),rng.below(300)][rng.below(7)];
+                let idx = [0usize,1,2,3,7,rng.below(40),rng.below(300),50,2489,2493][rng.below(10)];
                 if !used.insert(idx) { continue; }
-                let flen = 1 + rng.below(rl-2);
+                // the stored record is the text plus one line end: lengths below, at and beyond what fits
+                let flen = match rng.below(10) { 0 => rl-1, 1 => rl, 2 => rl+1, 3 => 2*rl, _ => 1 + rng.below(rl.max(3)-2) }.min(70000).max(1);
+                if flen+1 > rl { too_long = true; }
                 let mut s = String::new();
                 for _ in 0..flen { s.push((0x21 + rng.below(0x5d) as u8) as char); }
                 recs.add_record(idx,&s);
                 want.push((idx,s));
             }
             if let Err(e) = f.pack_rec(&recs) { return format!("ok refused {}",e); }
+            if (fs=="pascal" || fs=="cpm" || fs=="fat") { return "ok accepted-without-unpacker".to_string(); }
             match f.unpack_rec(Some(rl)) {
                 Ok(got) => {
                     for (i,s) in &want {
                         match got.map.get(i) {
-                            Some(g) => { let g2 = g.trim_end_matches(|c| c=='\n' || c=='\r'); if g2!=s.as_str() { return format!("FAIL record {} (len {}, record length {}) reads back altered",i,s.len(),rl); } },
+                            Some(g) => { let g2 = g.trim_end_matches(|c| c=='\n' || c=='\r'); if g2!=s.as_str() {
+                                return if too_long { format!("FAIL a record longer than the record length {} was packed without error and record {} reads back altered",rl,i) }
+                                       else { format!("FAIL record {} (len {}, record length {}) reads back altered",i,s.len(),rl) }; } },
                             None => return format!("FAIL record {} of {} stored records is missing after unpack (record length {})",i,want.len(),rl)
+                        }
+                    }
+                    // nothing that was never stored may turn up with text in it (blank records in the gaps are the documented exception)
+                    if !too_long {
+                        for (i,g) in &got.map {
+                            if !want.iter().any(|(k,_)| k==i) && g.chars().any(|c| c.is_ascii_graphic()) {
+                                return format!("FAIL record {} was never stored but reads back with text in it (record length {}, {} records stored)",i,rl,want.len());
+                            }
                         }
                     }
                     format!("ok records={} rl={}",want.len(),rl)
                 },
-                Err(e) => format!("FAIL unpack_rec failed after successful pack: {}",e)
+                Err(e) => format!("FAIL unpack_rec failed after successful pack (record length {}): {}",rl,e)
+            }
+        },
+        "recjson" => {
+            // a record set written as JSON parses back to an equal value: empty set, one record, many, texts of several lines
+            let rl = [2usize,16,128,255,4000][rng.below(5)];
+            let mut recs = Records::new(rl);
+            let n = [0usize,0,1,3,10][rng.below(5)];
+            for _ in 0..n {
+                let idx = [0usize,1,7,rng.below(3000),65535][rng.below(5)];
+                let lines = 1 + rng.below(3);
+                let mut s = String::new();
+                for _ in 0..lines { for _ in 0..rng.below(10) { s.push((0x21 + rng.below(0x5d) as u8) as char); } s.push('\n'); }
+                recs.add_record(idx,&s);
+            }
+            let js = recs.to_json(if rng.below(2)==0 {None} else {Some(2)});
+            match Records::from_json(&js) {
+                Ok(g) => if g.record_len==recs.record_len && g.map==recs.map { format!("ok records={}",n) } else { format!("FAIL record set of {} records differs after JSON round trip",recs.map.len()) },
+                Err(e) => format!("FAIL a record set of {} records written as JSON does not parse back: {}",recs.map.len(),e)
+            }
+        },
+        "recidx" => {
+            // record numbers whose byte offset does not fit: refused, never stored under another number
+            let rl = [128usize,2,65535][rng.below(3)];
+            let idx = [1usize<<57,1<<62,usize::MAX/rl,usize::MAX/rl+1,usize::MAX,1<<40][rng.below(6)];
+            let mut recs = Records::new(rl);
+            recs.add_record(idx,"HELLO");
+            recs.add_record(1,"ONE");
+            if let Err(e) = f.pack_rec(&recs) { return format!("ok refused {}",e); }
+            if (fs=="pascal" || fs=="cpm" || fs=="fat") { return "ok accepted-without-unpacker".to_string(); }
+            match f.unpack_rec(Some(rl)) {
+                Ok(got) => match got.map.get(&idx) {
+                    Some(g) if g.trim_end()=="HELLO" => format!("ok far-record idx={}",idx),
+                    _ => format!("FAIL record number {} (record length {}) was packed without error but does not read back",idx,rl)
+                },
+                Err(e) => format!("FAIL unpack_rec failed after successful pack of record number {}: {}",idx,e)
+            }
+        },
+        "big" => {
+            // data longer than the length field of the file system can hold must be refused
+            let n = [(1usize<<24)-1,1<<24,(1<<24)+5][rng.below(3)];
+            let d: Vec<u8> = (0..n).map(|i| (i*7+1) as u8).collect();
+            if let Err(e) = f.pack_bin(&d,Some(0x2000),None) { return format!("ok refused {}",e); }
+            match f.unpack_bin() {
+                Ok(v) => if v==d { format!("ok len={}",n) } else { format!("FAIL bin data of {} bytes packed without error but unpacks to {} bytes",n,v.len()) },
+                Err(e) => format!("FAIL unpack_bin failed after successful pack of {} bytes: {}",n,e)
             }
         },
         "json" => {
